@@ -189,6 +189,30 @@ pub fn u3r() -> Vec<Ty> {
     dedup(out)
 }
 
+/// U2f = K_full∘K_full over the layout classes (every constructor of U1 nested once more).
+pub fn u2f() -> Vec<Ty> {
+    let mut out = Vec::new();
+    for l in layout_classes() {
+        for inner in k_full(&l) {
+            out.extend(k_full(&inner));
+        }
+    }
+    dedup(out)
+}
+
+/// U3lc = Kc∘Kc∘Kc over all seven layout classes (superset of U3r).
+pub fn u3lc() -> Vec<Ty> {
+    let mut out = Vec::new();
+    for l in layout_classes() {
+        for a in k_comp(&l) {
+            for b in k_comp(&a) {
+                out.extend(k_comp(&b));
+            }
+        }
+    }
+    dedup(out)
+}
+
 /// Named universes used by the engines' tiers.
 pub fn universe(name: &str) -> Vec<Ty> {
     match name {
@@ -196,8 +220,11 @@ pub fn universe(name: &str) -> Vec<Ty> {
         "pairs" => pairs(),
         "u2" => u2(),
         "u3r" => u3r(),
+        "u2f" => u2f(),
+        "u3lc" => u3lc(),
         "quick" => dedup([u1(), pairs()].concat()),
         "thorough" => dedup([u1(), u2(), u3r()].concat()),
+        "deep" => dedup([u1(), u2(), u2f(), u3lc()].concat()),
         _ => panic!("unknown universe {name}"),
     }
 }
@@ -211,7 +238,8 @@ pub fn bounds_json() -> Value {
         "K_full(x)": k_full(&Ty::U8).iter().map(|t| t.to_string().replace("u8", "X")).collect::<Vec<_>>(),
         "K_comp(x)": k_comp(&Ty::U16).iter().map(|t| t.to_string().replace("u16", "X")).collect::<Vec<_>>(),
         "K_pair(a,b)": k_pair(&Ty::U16, &Ty::F64).iter().map(|t| t.to_string().replace("u16", "A").replace("f64", "B")).collect::<Vec<_>>(),
-        "sizes": {"u1": u1().len(), "pairs": pairs().len(), "u2": u2().len(), "u3r": u3r().len()},
+        "sizes": {"u1": u1().len(), "pairs": pairs().len(), "u2": u2().len(), "u3r": u3r().len(), "u2f": u2f().len(), "u3lc": u3lc().len()},
+        "universes": {"quick": "u1 ∪ pairs", "thorough": "u1 ∪ u2 ∪ u3r", "deep": "u1 ∪ u2 ∪ u2f ∪ u3lc"},
         "max_values_per_type": MAX_VALUES, "max_values_nested": MAX_NESTED,
         "list_lengths": [0,1,2,3],
     })
@@ -444,6 +472,9 @@ fn values_at(t: &Ty, depth: usize) -> Vec<Val> {
         }
         _ => unreachable!("values of {t}"),
     };
+    // V(T) is a set: no value twice
+    let mut seen = BTreeSet::new();
+    out.retain(|v| seen.insert(v.clone()));
     out.truncate(c.max(min_needed(t)));
     out
 }
